@@ -25,6 +25,11 @@ func (a Attribute) validate() error {
 	if a.Name == "" {
 		return errorx.Invalid("Attribute should have name")
 	}
+	// without a degree the attribute has the zero Degree, which has no size
+	// and cannot even be printed
+	if _, ok := a.Degree.Semitone(); !ok {
+		return errorx.Invalid("Attribute %s should have degree", a.Name)
+	}
 	return nil
 }
 
